@@ -11,10 +11,11 @@
      exact one-step identities, the goal has a row; the answer is an error or such a system
      ([refusal_is_error]); termination with the explicit fuel bound |U| inside any finite universe
      U closed under get_recurrence ([worklist_terminates_linear_partial]);
-   * refutation witnesses, on faithful models of the three code sites, of the refusals INSIDE the
-     documented class that need no model of a whole pass (defects 17, 19, 18 of DESIGN section 6).
+   * models of three code sites behind former refusals INSIDE the documented class (defects 17, 19,
+     18 of DESIGN section 6, repaired in /repo a5588d1, 99cc64b, 84580b5): positive theorems for the
+     repaired rules, *_old_rule_refuted regression witnesses for the rules before.
    NOT proved: [in_class p = true -> normalize_program accepts p] (no Coq model of the nine passes;
-   the statement is FALSE on the current tree — defects 12, 16, 17, 18, 19 are exhibited on the
+   the statement is FALSE on the current tree — defects 12, 16, 20, 22 are exhibited on the
    real code by ./check C18 on every run), and that the universe of type-reduced monomials is
    closed under get_recurrence for every program that is linear in its non-finite variables
    (the termination theorem of "This Is the Moment for Probabilistic Loops", OOPSLA'22, Thm 4.x);
@@ -172,40 +173,43 @@ Theorem C18_returned_system_bounds_fuel :
 Proof. exact returned_system_is_universe. Qed.
 Print Assumptions C18_returned_system_bounds_fuel.
 
-(* ---- acceptance: positive statements with the hypothesis the code relies on, and the
-   refutations without it ---- *)
+(* ---- acceptance: the three small models follow the REPAIRED code (/repo a5588d1, 99cc64b, 84580b5);
+   the positive statements hold without extra hypotheses, the *_old_rule_refuted theorems are the
+   regression witnesses of defects 17, 19, 18 on the rules before the repairs ---- *)
 Theorem C18_normalized_conditions_arithmetizable :
-  forall T a c, int_valued T -> get_normalized T a = NOk c -> arithm_defined T c = true.
+  forall T a c, get_normalized T a = NOk c -> arithm_defined T c = true.
 Proof. exact normalized_arithmetizable. Qed.
 Print Assumptions C18_normalized_conditions_arithmetizable.
 
-(* defect 17: non-integer finite values (x = 1/2 {1/2} 3/2; if x < 1) *)
-Theorem C18_acceptance_nonint_refuted :
-  exists T a c, get_normalized T a = NOk c /\ arithm_defined T c = false.
-Proof. exact normalized_arithmetizable_refuted. Qed.
-Print Assumptions C18_acceptance_nonint_refuted.
+(* defect 17, old rule (is_normalized demanded an integer): x = 1/2 {1/2} 3/2; if x < 1 *)
+Theorem C18_acceptance_nonint_old_rule_refuted :
+  exists T a c, get_normalized T a = NOk c /\ arithm_defined_old T c = false /\ arithm_defined T c = true.
+Proof. exact normalized_arithmetizable_old_rule_refuted. Qed.
+Print Assumptions C18_acceptance_nonint_old_rule_refuted.
 
 Theorem C18_constant_folding_keeps_reduced :
-  forall k v a, is_reduced a = true -> (forall o q, a <> (EVar k, o, q)) -> is_reduced (atom_subs k v a) = true.
-Proof. exact subs_keeps_reduced. Qed.
+  forall k v conds, forallb is_reduced conds = true -> forallb is_reduced (fold_constant k v conds) = true.
+Proof. exact fold_constant_keeps_reduced. Qed.
 Print Assumptions C18_constant_folding_keeps_reduced.
 
-(* defect 19: a fixed loop constant used directly in an atom (a = 1; if a == 0) *)
-Theorem C18_acceptance_constant_atom_refuted :
-  exists k v a T, is_reduced a = true /\ get_normalized T (atom_subs k v a) = NErr.
-Proof. exact constants_after_reducer_refuted. Qed.
-Print Assumptions C18_acceptance_constant_atom_refuted.
+(* defect 19, old rule (fold every fixed constant into the reduced atoms): a = 1; if a == 0 *)
+Theorem C18_acceptance_constant_atom_old_rule_refuted :
+  exists k v conds T, forallb is_reduced conds = true /\
+    existsb (fun a => match get_normalized T a with NErr => true | _ => false end) (fold_constant_old k v conds) = true /\
+    forallb is_reduced (fold_constant k v conds) = true.
+Proof. exact constants_after_reducer_old_rule_refuted. Qed.
+Print Assumptions C18_acceptance_constant_atom_old_rule_refuted.
 
-Theorem C18_goals_over_body_variables_indexed :
-  forall body_vars xs, incl xs body_vars -> last_assign_index body_vars xs <> None.
-Proof. exact goal_over_body_variables_indexed. Qed.
-Print Assumptions C18_goals_over_body_variables_indexed.
+Theorem C18_goals_indexed :
+  forall consts body_vars goal_vars, goal_index consts body_vars goal_vars <> None.
+Proof. exact goal_indexed. Qed.
+Print Assumptions C18_goals_indexed.
 
-(* defect 18: a goal over a folded loop constant (k = 2; ... E(k*x)) *)
-Theorem C18_acceptance_goal_constant_refuted :
-  exists body_vars xs, last_assign_index body_vars xs = None.
-Proof. exact goal_over_folded_constant_refuted. Qed.
-Print Assumptions C18_acceptance_goal_constant_refuted.
+(* defect 18, old rule (dict lookup of every goal variable): k = 2; ... E(k*x) *)
+Theorem C18_acceptance_goal_constant_old_rule_refuted :
+  exists consts body_vars xs, last_assign_index_old body_vars xs = None /\ goal_index consts body_vars xs = Some 1%nat.
+Proof. exact goal_over_folded_constant_old_rule_refuted. Qed.
+Print Assumptions C18_acceptance_goal_constant_old_rule_refuted.
 
 (* ---- non-vacuity ---- *)
 (* the README's situation: x depends non-linearly on g, g not on x; finite c in a condition *)
